@@ -442,6 +442,11 @@ def run(rep):
     axis_index_pairing(rep)
     trims(rep)
     spherical_formulas(rep)
+    # ... for the lifetime of the object: no in-place sink reaches an attribute of the shared
+    # FiniteDifference object outside its constructor (ownership analysis of C02, owner FD)
+    from . import c02
+    c02.analyse(rep, owner_filter=lambda o: o.startswith("FD"), rule="grid-immutable",
+                rels=["core.py", "maths.py", "numerical.py", "finitedifference.py", "time.py"])
     rep.floor("coordinate-array", 3)
     rep.floor("extent-provenance", 9)
     rep.floor("axis-siblings", 12)
